@@ -11,6 +11,7 @@ from __future__ import annotations
 
 import io
 import itertools
+import json
 
 import numpy as np
 
@@ -550,6 +551,303 @@ def _mutations(ctx, objs, alias, reqs, pending):
                                       'ba': [st2, bool(ba) if st2 == 'ok' else _kind(ba)]})))
 
 
+# ------------------------------------------------------------------ 5. dict / set histories
+def _triple(d):
+    return (d['scheme'], d['value'], d['version'])
+
+
+def _dict_histories(ctx, objs, alias, reqs, pending):
+    """histories of insertions / look-ups / deletions on ONE dict or set whose keys are codes of both classes
+    (same scheme+value under different meanings, versions and classes; sometimes both sides of a retired alias)"""
+    by_sv = {}
+    for d, o in objs:
+        by_sv.setdefault((d['scheme'], d['value']), []).append((d, o))
+    svs = sorted(by_sv)
+    alias_svs = set(alias) | set(alias.values())
+    for idx in range(ctx.n(120, 1500)):
+        r = ctx.rng('dict', idx)
+        kind = r.choice(['dict', 'dict', 'set'])
+        with_alias = r.random() < 0.25
+        pool_sv = r.sample(svs, r.choice([1, 2, 3]))
+        if with_alias:
+            a0 = sorted(alias)[0]
+            pool_sv = list(dict.fromkeys(pool_sv + [a0, alias[a0]]))
+        has_alias_pair = any(a in pool_sv and b in pool_sv for a, b in alias.items())
+        keys = [x for sv in pool_sv for x in by_sv[sv]]
+        real = {} if kind == 'dict' else set()
+        ref = {}            # oracle: raw (scheme, value, version) -> [descr of the key object stored first, value]
+        ops, outs = [], []
+        n_ops = r.choice([4, 8, 8, 14, 20])
+        snapshot_fail = None
+        for step in range(n_ops):
+            dk, k = r.choice(keys)
+            what = r.choice(['set', 'set', 'set', 'get', 'get', 'del'])
+            t = _triple(dk)
+            if what == 'set':
+                v = step + 1 if kind == 'dict' else 0
+                st, _ = _try(real.__setitem__, k, v) if kind == 'dict' else _try(real.add, k)
+                out = ('ok', v) if st == 'ok' else ('err', _)
+                want = v
+                if t in ref:
+                    ref[t][1] = v
+                else:
+                    ref[t] = [dk, v]
+                ops.append({'op': 'set', 'k': _enc(k), 'v': v})
+            elif what == 'get':
+                if kind == 'dict':
+                    st, got = _try(real.get, k)
+                else:
+                    st, got = _try(lambda: 0 if k in real else None)
+                out = ('ok', got) if st == 'ok' else ('err', got)
+                want = ref[t][1] if t in ref else None
+                ops.append({'op': 'get', 'k': _enc(k)})
+            else:
+                def _del():
+                    if kind == 'dict':
+                        old = real[k]
+                        del real[k]
+                        return old
+                    real.remove(k)
+                    return 0
+                try:
+                    out = ('ok', _del())
+                except KeyError:
+                    out = ('ok', None)
+                except Exception as e:  # noqa: BLE001
+                    out = ('err', type(e).__name__)
+                want = ref.pop(t)[1] if t in ref else None
+                ops.append({'op': 'del', 'k': _enc(k)})
+            outs.append(list(out))
+            # oracle: the dict behaves like one keyed by (scheme, value, version) - class and meaning never matter
+            if not has_alias_pair and snapshot_fail is None and (out[0] != 'ok' or out[1] != want):
+                snapshot_fail = (step, what, dk, out, want)
+        entries = [[_enc(k), (real[k] if kind == 'dict' else 0)] for k in real]
+        case = {'what': 'dict-history', 'kind': kind, 'ops': ops, 'idx': idx}
+        ctx.case(sample=case if idx % 97 == 0 else None,
+                 nontrivial_key=('dict', kind, len(pool_sv), has_alias_pair, n_ops, len(real)),
+                 dict_kind=kind, dict_ops=n_ops, dict_alias_pair=has_alias_pair, dict_final_size=min(len(real), 6))
+        if snapshot_fail is not None:
+            step, what, dk, out, want = snapshot_fail
+            ctx.fail(case, f'step {step} ({what} with key {dk}): got {out}, a container keyed by (scheme, value, version) gives {want}',
+                     site='dict-history')
+        elif not has_alias_pair:
+            got_final = sorted((json.dumps(_enc_descr(ref[t][0]), sort_keys=True), ref[t][1]) for t in ref)
+            real_final = sorted((json.dumps(e[0], sort_keys=True), e[1]) for e in entries)
+            if len(real) != len(ref):
+                ctx.fail(case, f'{len(real)} entries at the end, {len(ref)} distinct (scheme, value, version) keys were inserted and not deleted',
+                         site='dict-history')
+            elif got_final != real_final:
+                ctx.fail(case, 'the key objects kept by the container are not the ones inserted first', site='dict-history')
+        reqs.append(('dictHistory', {'ops': ops}))
+        pending.append((case, ('ok', {'steps': outs, 'entries': entries, 'ordered': kind == 'dict'})))
+
+
+def _enc_descr(d):
+    """what `_enc` gives for the object described by d (without building it through the library)"""
+    if d['cls'] == 'code':
+        return {'code': [d['value'], d['scheme'], d['meaning'], d['version']]}
+    from highdicom.sr.coding import CodedConcept
+    return _enc(CodedConcept(d['value'], d['scheme'], d['meaning'], d['version']))
+
+
+# ------------------------------------------------------------------ 6. histories on several objects
+STORE_VALUES = ['12738006', '1273800612738006X', 'urn:oid:1.2.840.10008.2.16.4', 'T-A0100']
+STORE_SCHEMES = ['SCT', '99HDV', 'SRT']
+STORE_MEANINGS = ['Brain', 'Entire brain (body structure)', 'third meaning', 'm' * 64]
+STORE_VERSIONS = [None, None, '2020', '2.0']
+
+
+def _cell(o):
+    from highdicom.sr.coding import CodedConcept
+    return {'cls': 'concept' if isinstance(o, CodedConcept) else 'dataset', 'ds': sorted(_ds_pairs(o))}
+
+
+def _store_histories(ctx, reqs, pending):
+    """several concepts made one after the other (constructor, from_code of codes that differ only in meaning /
+    version, from_code of a concept, from_dataset copy/alias, deepcopy, pickle), written to through their references;
+    after EVERY step every other object must be what it was"""
+    import copy as _copy
+    import pickle
+    from pydicom.dataset import Dataset
+    from pydicom.sr.coding import Code
+    from highdicom.sr.coding import CodedConcept
+    for idx in range(ctx.n(150, 2000)):
+        r = ctx.rng('store', idx)
+        objs = []
+        for _ in range(r.choice([0, 1, 2])):
+            ds = Dataset()
+            pat = r.choice([(1, 0, 0), (0, 1, 0), (0, 0, 1), (1, 1, 0), (0, 0, 0), (1, 0, 0)])
+            for bit, kw, val in zip(pat, CODE_KWS, STORE_VALUES):
+                if bit:
+                    setattr(ds, kw, val)
+            if r.random() < 0.85:
+                ds.CodeMeaning = r.choice(STORE_MEANINGS)
+            if r.random() < 0.85:
+                ds.CodingSchemeDesignator = r.choice(STORE_SCHEMES)
+            if r.random() < 0.3:
+                ds.CodingSchemeVersion = '2020'
+            objs.append(ds)
+        heap0 = [_cell(o) for o in objs]
+        # a small argument pool so that the same (value, scheme) comes back under other meanings / versions
+        v0, s0 = r.choice(STORE_VALUES), r.choice(STORE_SCHEMES)
+        ops, outs = [], []
+        fail = None
+        for step in range(r.choice([3, 6, 6, 10, 16])):
+            kinds = ['new', 'fromCode', 'fromCode', 'fromCode']
+            if objs:
+                kinds += ['fromConcept', 'fromDataset', 'fromDataset', 'deepcopy', 'pickle', 'set', 'set', 'del']
+            what = r.choice(kinds)
+            before = [_cell(o) for o in objs]
+            target = None
+            fresh = False
+            args = None
+            try:
+                if what in ('new', 'fromCode'):
+                    v = v0 if r.random() < 0.7 else r.choice(STORE_VALUES)
+                    sc = s0 if r.random() < 0.7 else r.choice(STORE_SCHEMES)
+                    m = r.choice(STORE_MEANINGS + (['m' * 65, 'a\\b'] if r.random() < 0.15 else []))
+                    ver = r.choice(STORE_VERSIONS)
+                    args = (v, sc, m, ver)
+                    ops.append({'op': what, 'value': v, 'scheme': sc, 'meaning': m, 'version': ver})
+                    fresh = True
+                    res = CodedConcept(v, sc, m, ver) if what == 'new' else CodedConcept.from_code(Code(v, sc, m, ver))
+                elif what == 'fromConcept':
+                    j = r.randrange(len(objs))
+                    ops.append({'op': 'fromConcept', 'r': j})
+                    res = CodedConcept.from_code(objs[j])
+                elif what == 'fromDataset':
+                    j = r.randrange(len(objs))
+                    cp = r.random() < 0.5
+                    ops.append({'op': 'fromDataset', 'r': j, 'copy': cp})
+                    fresh = cp
+                    target = None if cp else j
+                    res = CodedConcept.from_dataset(objs[j], copy=cp)
+                elif what in ('deepcopy', 'pickle'):
+                    j = r.randrange(len(objs))
+                    ops.append({'op': 'deepcopy', 'r': j, 'via': what})
+                    fresh = True
+                    res = _copy.deepcopy(objs[j]) if what == 'deepcopy' else pickle.loads(pickle.dumps(objs[j]))
+                elif what == 'set':
+                    j = r.randrange(len(objs))
+                    kw = r.choice(MUT_KWS)
+                    val = {'CodeMeaning': r.choice(['changed', 'Brain']), 'CodingSchemeDesignator': r.choice(STORE_SCHEMES),
+                           'CodingSchemeVersion': r.choice(['2020', '3.1'])}.get(kw) or r.choice(STORE_VALUES)
+                    ops.append({'op': 'set', 'r': j, 'k': kw, 'v': val})
+                    target = j
+                    setattr(objs[j], kw, val)
+                    res = None
+                else:
+                    j = r.randrange(len(objs))
+                    kw = r.choice(MUT_KWS)
+                    ops.append({'op': 'del', 'r': j, 'k': kw})
+                    target = j
+                    delattr(objs[j], kw)
+                    res = None
+                if res is None:
+                    outs.append(['ok', None])
+                else:
+                    where = [i for i, o in enumerate(objs) if o is res]
+                    if where:
+                        outs.append(['ok', where[0]])
+                    else:
+                        objs.append(res)
+                        outs.append(['ok', len(objs) - 1])
+            except Exception as e:  # noqa: BLE001
+                outs.append(['err', _kind(type(e).__name__)])
+                res = None
+                fresh = False
+                target = None if what not in ('set', 'del') else target
+                if what in ('set', 'del'):
+                    target = None           # a refused statement must not change anything either
+            # ---- oracle, after every step
+            if fail is None:
+                for i, b in enumerate(before):
+                    if i != target and _cell(objs[i]) != b:
+                        fail = (step, f'step {step} ({ops[-1]}) changed object {i}, which it does not write through: {b} -> {_cell(objs[i])}')
+                        break
+            if fail is None and outs[-1][0] == 'ok' and res is not None:
+                if fresh and outs[-1][1] < len(before):
+                    fail = (step, f'step {step} ({ops[-1]}) must make a new object but returned the existing object {outs[-1][1]}')
+                elif what in ('new', 'fromCode'):
+                    stp, got = _try(lambda: (res.value, res.scheme_designator, res.meaning, res.scheme_version))
+                    if stp != 'ok' or got != args or not isinstance(res, CodedConcept):
+                        fail = (step, f'step {step} ({ops[-1]}) gave a concept that reads {got!r}')
+                elif what == 'fromConcept' and isinstance(objs[ops[-1]['r']], CodedConcept) and outs[-1][1] != ops[-1]['r']:
+                    fail = (step, f'from_code of a CodedConcept returned another object')
+                elif what in ('deepcopy', 'pickle', 'fromDataset'):
+                    src = before[ops[-1]['r']]
+                    if sorted(_ds_pairs(res)) != src['ds'] or (what == 'fromDataset' and not isinstance(res, CodedConcept)) or \
+                            (what != 'fromDataset' and _cell(res)['cls'] != src['cls']):
+                        fail = (step, f'step {step} ({ops[-1]}): the result does not carry the content / class it should')
+                    if what == 'fromDataset' and not ops[-1]['copy'] and outs[-1][1] != ops[-1]['r']:
+                        fail = (step, 'from_dataset(copy=False) returned another object')
+            if fail is None and what == 'set' and outs[-1][0] == 'ok':
+                if str(getattr(objs[ops[-1]['r']], ops[-1]['k'], None)) != ops[-1]['v']:
+                    fail = (step, f'step {step}: the assigned attribute does not read back')
+        case = {'what': 'store-history', 'heap': heap0, 'ops': ops, 'idx': idx}
+        n_from_code = sum(1 for o in ops if o['op'] == 'fromCode')
+        ctx.case(sample=case if idx % 149 == 0 else None,
+                 nontrivial_key=('store', len(heap0), tuple(o['op'] for o in ops)[:8]),
+                 store_ops=len(ops), store_from_code=min(n_from_code, 5), store_refused=sum(1 for o in outs if o[0] == 'err'),
+                 store_objects=min(len(objs), 8))
+        for o in ops:
+            ctx.hist('store_op', o.get('via', o['op']))
+        if fail is not None:
+            ctx.fail(case, fail[1], site='store-history')
+        reqs.append(('storeHistory', {'heap': heap0, 'ops': [{k: v for k, v in o.items() if k != 'via'} for o in ops]}))
+        pending.append((case, ('ok', {'steps': outs, 'heap': [_cell(o) for o in objs]})))
+
+
+# ------------------------------------------------------------------ 7. the four strings through a written file
+PADDED = ['abc ', 'abc  ', ' abc', ' abc ', 'a b ', 'abc\x00', 'abc \x00', '1234567890123456 ', '123456789012345 ', 'urn:oid:1.2.3 ',
+          'http://x.org/a ', 'abc', 'x']
+
+
+def _file_strings(ctx, reqs, pending):
+    import pydicom
+    from pydicom.dataset import Dataset
+    from highdicom.sr.coding import CodedConcept
+    r = ctx.rng('file-strings')
+    combos = [(v, '99HDV', 'm', None) for v in PADDED]
+    combos += [('abc', s, 'm', None) for s in ('99HDV ', ' 99HDV', '99HDV\x00')]
+    combos += [('abc', '99HDV', m, None) for m in ('two words ', ' lead', 'm\x00', 'm  ')]
+    combos += [('abc', '99HDV', 'm', ver) for ver in ('1.0 ', ' 1.0', '2\x00', '1.0')]
+    for _ in range(ctx.n(10, 200)):
+        combos.append((r.choice(PADDED), r.choice(['99HDV', '99HDV ', 'SCT']), r.choice(['m', 'm ', ' m']), r.choice([None, '1 ', '1'])))
+    for idx, (v, sc, m, ver) in enumerate(combos):
+        st, c = _try(CodedConcept, v, sc, m, ver)
+        if st != 'ok':
+            continue
+        for implicit in (False, True):
+            case = {'what': 'file-strings', 'args': [v, sc, m, ver], 'implicit': implicit}
+            outer = Dataset()
+            outer.ConceptNameCodeSequence = [c]
+            buf = io.BytesIO()
+            st2, err = _try(pydicom.dcmwrite, buf, outer, implicit_vr=implicit, little_endian=True)
+            if st2 != 'ok':
+                ctx.note(f'pydicom could not write {[v, sc, m, ver]!r}: {err}')
+                continue
+            buf.seek(0)
+            back = pydicom.dcmread(buf, force=True).ConceptNameCodeSequence[0]
+            st3, c2 = _try(CodedConcept.from_dataset, back)
+            padded = any(x is not None and x != x.rstrip(' \x00') for x in (v, sc, m, ver))
+            ctx.case(sample=case if idx % 13 == 0 and not implicit else None, nontrivial_key=('file-strings', idx, implicit),
+                     path='file-strings', file_padded=padded)
+            if st3 != 'ok':
+                ctx.fail(case, f'from_dataset refused the code read from the file: {c2}', site='file-strings')
+                continue
+            # oracle: the reader drops trailing padding (blank, NUL) and nothing else; the attribute stays the same
+            want = tuple(None if x is None else x.rstrip(' \x00') for x in (v, sc, m, ver))
+            stp, got = _try(lambda: (c2.value, c2.scheme_designator, c2.meaning, c2.scheme_version))
+            same_attr = [k for k in CODE_KWS if k in c2] == [k for k in CODE_KWS if k in c]
+            if stp != 'ok' or got != want or not same_attr:
+                ctx.fail(case, f'read back {got!r}, written {[v, sc, m, ver]!r}', site='file-strings')
+            elif not padded and not ((c2 == c) and (c == c2) and hash(c2) == hash(c)):
+                ctx.fail(case, 'a code without trailing padding is not equal to itself after the file', site='file-strings')
+            reqs.append(('fileRT', {'ds': _ds_pairs(c)}))
+            pending.append((case, ('ok', sorted(_ds_pairs(c2)))))
+
+
 # ------------------------------------------------------------------ run
 def _compare(ctx, pending, answers):
     seen = {}
@@ -567,6 +865,15 @@ def _compare(ctx, pending, answers):
         for k, v in seen.items():
             if v > 4:
                 ctx.note(f'{v} disagreements of kind {k!r} (4 recorded)')
+
+
+def _canon_entries(ents):
+    out = []
+    for k, v in ents:
+        if 'concept' in k:
+            k = {'concept': sorted(map(list, k['concept']))}
+        out.append([k, v])
+    return out
 
 
 def _compare_inner(ctx, pending, answers, disagree):
@@ -599,6 +906,28 @@ def _compare_inner(ctx, pending, answers, disagree):
                     got[k] = want[k]
             if got != want:
                 disagree('L0', case, impl, got, 'mutated concept')
+        elif what == 'dict-history':
+            m = model[1]
+            steps = [['ok', x['ok']] if 'ok' in x else ['err', x['err']] for x in m['steps']]
+            want_steps = [[a, (b if a == 'ok' else None)] for a, b in impl[1]['steps']]
+            got_steps = [[a, (b if a == 'ok' else None)] for a, b in steps]
+            ents = [[e[0], e[1]] for e in m['entries']]
+            real = impl[1]['entries']
+            if not impl[1]['ordered']:
+                ents = sorted(ents, key=lambda e: json.dumps(e, sort_keys=True))
+                real = sorted(real, key=lambda e: json.dumps(e, sort_keys=True))
+            if got_steps != want_steps or _canon_entries(ents) != _canon_entries(real):
+                disagree('L0', case, impl, {'steps': got_steps, 'entries': ents}, 'dict history')
+        elif what == 'store-history':
+            m = model[1]
+            steps = [['ok', x['ok']] if 'ok' in x else ['err', None] for x in m['steps']]
+            want_steps = [[a, (b if a == 'ok' else None)] for a, b in impl[1]['steps']]
+            heap = [{'cls': c['cls'], 'ds': sorted(map(list, c['ds']))} for c in m['heap']]
+            if steps != want_steps or heap != impl[1]['heap']:
+                disagree('L0', case, impl, {'steps': steps, 'heap': heap}, 'store history')
+        elif what == 'file-strings':
+            if sorted(map(list, model[1])) != impl[1]:
+                disagree('L0', case, impl, model, 'strings through a file')
         elif what == 'ctor':
             if sorted(map(list, model[1])) != impl[1]:
                 disagree('L0', case, impl, model, 'constructed dataset')
@@ -626,6 +955,9 @@ def run(ctx):
     _from_dataset(ctx, reqs, pending)
     _from_code(ctx, objs, retired, reqs, pending)
     _mutations(ctx, objs, alias, reqs, pending)
+    _dict_histories(ctx, objs, alias, reqs, pending)
+    _store_histories(ctx, reqs, pending)
+    _file_strings(ctx, reqs, pending)
     answers = ctx.model(reqs)
     if answers is None:
         return
